@@ -88,13 +88,13 @@ Theorem C31_owner_release_buffered_refuted :
 Proof. exact owner_release_buffered_refuted. Qed.
 Print Assumptions C31_owner_release_buffered_refuted.
 
-Definition C31_full_statement : Prop :=
-  forall (pc : pcfg) (h : list wmsg) (sched : list caction), bus_history (scfg pc) h = true ->
-    let x := crun pc h sched in
-    (c_ready x <> Some true -> forall p, cached x p = None) /\
-    (caught_up x -> forall p, cached x p = spec_cache pc (received x h) p) /\
-    (c_ready x = Some true -> spec_ready pc (received x h) = Some true).
-
-Theorem C31_full_statement_refuted : ~ C31_full_statement.
+(* hence the statement for ALL bus histories and schedules (Definition C31_full_statement in C31/Witness.v,
+   written out here) is false on this tree *)
+Theorem C31_full_statement_refuted :
+  ~ (forall (pc : pcfg) (h : list wmsg) (sched : list caction), bus_history (scfg pc) h = true ->
+       let x := crun pc h sched in
+       (c_ready x <> Some true -> forall p, cached x p = None) /\
+       (caught_up x -> forall p, cached x p = spec_cache pc (received x h) p) /\
+       (c_ready x = Some true -> spec_ready pc (received x h) = Some true)).
 Proof. exact full_statement_refuted. Qed.
 Print Assumptions C31_full_statement_refuted.
